@@ -105,12 +105,30 @@ func (a *errAn) chain(v ssa.Value, seen map[ssa.Value]bool) errSet {
 				return out
 			}
 		}
+		// a field of a library type: join over every store into that field
+		if x.Op == token.MUL {
+			if _, fr, ok := fieldLoad(x); ok && fr.Type != "" {
+				if sts := a.b.fieldStores(fr); len(sts) > 0 {
+					for _, st := range sts {
+						out.addAll(a.chain(st.Val, seen))
+					}
+					return out
+				}
+			}
+		}
 		out["?load"] = true
 	case *ssa.MakeInterface:
 		if isErrorType(x.X.Type()) {
 			return a.chain(x.X, seen)
 		}
 		out["T:"+typeShort(x.X.Type())] = true
+		if uw := a.b.unwrapMethodOf(x.X.Type()); uw != nil {
+			for _, r := range liveReturns(uw) {
+				if len(r.Results) == 1 {
+					out.addAll(a.chain(r.Results[0], seen))
+				}
+			}
+		}
 	case *ssa.ChangeInterface:
 		return a.chain(x.X, seen)
 	case *ssa.ChangeType:
@@ -190,13 +208,44 @@ func (a *errAn) callChain(call *ssa.Call, seen map[ssa.Value]bool) errSet {
 
 // directlyWraps: v is sentinel global `name` itself, or fmt.Errorf whose %w
 // operand is that sentinel.
-func directlyWrapsSentinel(v ssa.Value, name string) bool {
+func (b *Body) directlyWrapsSentinel(v ssa.Value, name string) bool {
 	isSent := func(x ssa.Value) bool {
 		g := sentinelGlobal(unwrapConv(x))
 		return g != nil && g.Name() == name
 	}
 	if isSent(v) {
 		return true
+	}
+	// an error value of a library type whose Unwrap method always answers the sentinel
+	if mi, ok := v.(*ssa.MakeInterface); ok {
+		if uw := b.unwrapMethodOf(mi.X.Type()); uw != nil {
+			n := 0
+			for _, r := range liveReturns(uw) {
+				if len(r.Results) != 1 {
+					return false
+				}
+				if isSent(r.Results[0]) {
+					n++
+					continue
+				}
+				// a field of the error, every store into which is of the sentinel
+				_, fr, isLd := fieldLoad(r.Results[0])
+				if !isLd {
+					return false
+				}
+				sts := b.fieldStores(fr)
+				if len(sts) == 0 {
+					return false
+				}
+				for _, st := range sts {
+					if !isSent(st.Val) {
+						return false
+					}
+				}
+				n++
+			}
+			return n > 0
+		}
 	}
 	call, ok := v.(*ssa.Call)
 	if !ok || !staticCalleeIs(&call.Call, "fmt", "Errorf") {
@@ -412,7 +461,7 @@ func ruleErrChain(c *Ctx) {
 					})
 					if uses {
 						users = append(users, fname(fn))
-						if fn != testH {
+						if fn != testH && !b.methodOfErrorBuiltOnlyIn(fn, testH) {
 							bad = fname(fn)
 						}
 					}
@@ -496,7 +545,7 @@ func ruleErrChain(c *Ctx) {
 				} else {
 					nVerdict++
 					key := fmt.Sprintf("TF-all: comparison-verdict return #%s of the test handler yields ErrTestFailed", b.retOrdinal(r))
-					if directlyWrapsSentinel(v, "ErrTestFailed") {
+					if b.directlyWrapsSentinel(v, "ErrTestFailed") {
 						l.add("R-ERRCHAIN", b.Name, key, b.posOf(r), Discharged, "not controlled by any lookup condition (controlled by "+strings.Join(depDesc, ", ")+"); the returned error is ErrTestFailed or wraps it with %w", true)
 					} else {
 						l.add("R-ERRCHAIN", b.Name, key, b.posOf(r), Violated, "this error return is reached when the comparison came out unequal (it is not controlled by a lookup condition) but does not wrap ErrTestFailed with %w; chain "+ch.String(), true)
@@ -558,7 +607,7 @@ func ruleErrChain(c *Ctx) {
 							return
 						}
 						for _, r := range errs {
-							if !directlyWrapsSentinel(retVal(r, ei), "ErrMissing") {
+							if !b.directlyWrapsSentinel(retVal(r, ei), "ErrMissing") {
 								l.add("R-ERRCHAIN", b.Name, key, b.posOf(r), Violated, "the error returned when the parent location cannot be reached does not wrap ErrMissing with %w; chain "+a.chain(retVal(r, ei), map[ssa.Value]bool{}).String(), true)
 								return
 							}
@@ -589,7 +638,7 @@ func ruleErrChain(c *Ctx) {
 							errs, _ := errReturnsUnderEdge(hf, t.Blk, 1-t.NonNilSucc)
 							all := len(errs) > 0
 							for _, r := range errs {
-								if !directlyWrapsSentinel(retVal(r, errResultIndex(hf)), "ErrMissing") {
+								if !b.directlyWrapsSentinel(retVal(r, errResultIndex(hf)), "ErrMissing") {
 									all = false
 								}
 							}
@@ -758,7 +807,7 @@ func ruleErrChain(c *Ctx) {
 							return
 						}
 						for _, r := range errs {
-							if !directlyWrapsSentinel(retVal(r, ei), "ErrMissing") {
+							if !b.directlyWrapsSentinel(retVal(r, ei), "ErrMissing") {
 								l.add("R-ERRCHAIN", b.Name, key, b.posOf(r), Violated, "the error returned for an absent member does not wrap ErrMissing with %w; chain "+a.chain(retVal(r, ei), map[ssa.Value]bool{}).String(), true)
 								return
 							}
@@ -806,13 +855,23 @@ func ruleErrChain(c *Ctx) {
 							continue // judged at the test of the merged error, which is in the list too
 						}
 						errs, nils := errReturnsUnderEdge(h, t.Blk, t.NonNilSucc)
+						if k == "remove" && m == "remove" {
+							// the remove handler may forgive an absent target under its option
+							var rest []*ssa.Return
+							for _, r := range nils {
+								if !b.controlledByOptionField(r.Block(), "AllowMissingPathOnRemove") {
+									rest = append(rest, r)
+								}
+							}
+							nils = rest
+						}
 						if len(errs) == 0 || len(nils) > 0 {
 							verdict, fact = Violated, "the non-nil edge of the error test at "+b.posOf(t.Blk.Instrs[len(t.Blk.Instrs)-1])+" does not always return an error"
 							break
 						}
 						for _, r := range errs {
 							rv := retVal(r, ei)
-							if !wrapsValue(rv, e) && !directlyWrapsSentinel(rv, "ErrMissing") {
+							if !wrapsValue(rv, e) && !b.directlyWrapsSentinel(rv, "ErrMissing") {
 								verdict, fact = Violated, "the return at "+b.posOf(r)+" neither is/wraps (%w) the container's error nor wraps ErrMissing: errors.Is(err, ErrMissing) is lost for an absent member; chain "+a.chain(rv, map[ssa.Value]bool{}).String()
 							}
 						}
@@ -914,12 +973,19 @@ func (b *Body) controlledByOptionField(bb *ssa.BasicBlock, field string) bool {
 		if !ok || ld.Op != token.MUL {
 			continue
 		}
-		fa, ok := ld.X.(*ssa.FieldAddr)
-		if !ok {
-			continue
-		}
-		if fieldName(fa.X.Type(), fa.Field) != field {
-			continue
+		if g, isG := ld.X.(*ssa.Global); isG {
+			// the option as a package-level switch of that name (the legacy package's style)
+			if g.Pkg != b.Lib || g.Name() != field {
+				continue
+			}
+		} else {
+			fa, ok := ld.X.(*ssa.FieldAddr)
+			if !ok {
+				continue
+			}
+			if fieldName(fa.X.Type(), fa.Field) != field {
+				continue
+			}
 		}
 		// the block must be on the option-true side
 		want := 0
@@ -1588,4 +1654,79 @@ func (b *Body) onlyCalledFrom(fn, from *ssa.Function) bool {
 		})
 	}
 	return ok && n > 0
+}
+
+// unwrapMethodOf: the `Unwrap() error` method of a library error type (pointer or value receiver).
+func (b *Body) unwrapMethodOf(t types.Type) *ssa.Function {
+	n := derefNamed(t)
+	if n == nil {
+		if nn, ok := t.(*types.Named); ok {
+			n = nn
+		}
+	}
+	if n == nil || n.Obj().Pkg() != b.Lib.Pkg {
+		return nil
+	}
+	for _, recv := range []types.Type{n, types.NewPointer(n)} {
+		ms := b.Lib.Prog.MethodSets.MethodSet(recv)
+		if sel := ms.Lookup(b.Lib.Pkg, "Unwrap"); sel != nil {
+			if f := b.Lib.Prog.MethodValue(sel); f != nil && len(f.Blocks) > 0 {
+				if sig := f.Signature; sig.Params().Len() == 0 && sig.Results().Len() == 1 && isErrorType(sig.Results().At(0).Type()) {
+					return f
+				}
+			}
+		}
+	}
+	return nil
+}
+
+// methodOfErrorBuiltOnlyIn: fn is a method of a library error type every value of which is
+// built in `only` (or in a function called from nowhere else): what the method reads belongs
+// to errors that function makes.
+func (b *Body) methodOfErrorBuiltOnlyIn(fn, only *ssa.Function) bool {
+	if fn.Signature.Recv() == nil {
+		return false
+	}
+	n := derefNamed(fn.Signature.Recv().Type())
+	if n == nil {
+		if nn, ok := fn.Signature.Recv().Type().(*types.Named); ok {
+			n = nn
+		}
+	}
+	if n == nil || n.Obj().Pkg() != b.Lib.Pkg {
+		return false
+	}
+	built := 0
+	ok := true
+	for _, g := range b.srcFuncs(b.Lib) {
+		allInstrs(g, func(i ssa.Instruction) {
+			al, isAl := i.(*ssa.Alloc)
+			if !isAl {
+				return
+			}
+			if dn := derefNamed(al.Type()); dn == nil || dn.Obj() != n.Obj() {
+				return
+			}
+			built++
+			if g != only && !b.onlyCalledFrom(g, only) {
+				ok = false
+			}
+		})
+	}
+	return ok && built > 0
+}
+
+// fieldStores: every store, anywhere in the library, into the given field of the given type.
+func (b *Body) fieldStores(fr fieldRef) []*ssa.Store {
+	var out []*ssa.Store
+	for _, fn := range b.srcFuncs(b.Lib) {
+		allInstrs(fn, func(i ssa.Instruction) {
+			if st, ok := i.(*ssa.Store); ok {
+				if fa, ok := st.Addr.(*ssa.FieldAddr); ok && fieldOfAddr(fa) == fr {
+					out = append(out, st)
+				}
+			}
+		})
+	}
+	return out
 }
